@@ -759,7 +759,9 @@ def _same_cnt(a, b):
     return False
 
 
-def counters_with_callees(env, T, b, ctx):
+def counters_with_callees(env, T, b, ctx, depth=0):
+    """counting loops of b, of the crate-local helpers it calls, and of the closures it hands to such helpers
+    (`self.with_iter(|it| { while i < n { .. } i })`), all in b's terms"""
     out = list(counter_loops(env, T, b, ctx))
     for bi, t, c in b.calls():
         if b.blocks[bi]["cleanup"]:
@@ -767,6 +769,14 @@ def counters_with_callees(env, T, b, ctx):
         nctx = env.ev.callee_ctx(ctx, bi)
         if nctx is not None:
             out.extend(counter_loops(env, T, nctx.body, nctx))
+            if depth < 2:
+                # a closure of the crate invoked inside the helper (the call is devirtualised by callee_ctx)
+                for bj, t2, c2 in nctx.body.calls():
+                    if not nctx.body.blocks[bj]["cleanup"] and not c2.indirect and c2.trait in (
+                            "std::ops::FnOnce", "std::ops::FnMut", "std::ops::Fn"):
+                        cctx = env.ev.callee_ctx(nctx, bj)
+                        if cctx is not None:
+                            out.extend(counter_loops(env, T, cctx.body, cctx))
     return out
 
 
@@ -820,6 +830,67 @@ def unref_len(t):
     if t[0] == "call" and t[1] == "len" and t[2]:
         return ("call", "len", (("ref", unref(t[2][0])),))
     return t
+
+
+def _closure_handed_to_helper(env, T, cl, sa):
+    """closure cl is created by its parent and passed to a crate-local helper that calls it (not to a std adaptor). Returns
+    None when that is not the case, else (ok, text): ok when, in the parent, every path from the helper call to a return
+    passes a store of the end flag unless the path is known not to follow a None of the wrapped iterator: the closure's
+    result is the result of `next()` itself and the path is under `is_some`, or the closure runs a fill / counting loop and
+    the path is under `requested <= obtained`."""
+    F, ev = env.F, env.ev
+    P = F.bodies.get(cl.parent)
+    if P is None:
+        return None
+    psa = F.impl_self_adt(P) or sa
+    pctx = env.ctx(P, psa, T.world)
+    site = None
+    for bi, t, c in P.calls():
+        if P.blocks[bi]["cleanup"] or c.indirect:
+            continue
+        for a in t["args"]:
+            v = ev.operand(pctx, a)
+            while v[0] == "ref":
+                v = v[1]
+            if v[0] == "agg" and v[1] == "closure:" + cl.def_:
+                nctx = ev.callee_ctx(pctx, bi)
+                if nctx is not None and not (c.trait or "").startswith("std::"):
+                    site = (bi, t, nctx)
+    if site is None:
+        return None
+    bi, t, nctx = site
+    done_blocks = {e.info["top_bb"] for e in T.direct_events(P, psa) if e.kind == "atomic" and e.info["op"] == "store"
+                   and T.role_of(e.info["place"])[0] == "done"}
+    tgt = t.get("target")
+    if tgt is None:
+        return (False, "the helper call in %s does not return" % env.fname(P))
+    res_t = unref(ev.local(pctx, t["dest"]["l"])) if not t["dest"]["p"] else None
+    feasible_none = set()
+    cl_loops = fill_loops(env, T, cl, env.ctx(cl, sa, T.world)) + counter_loops(env, T, cl, env.ctx(cl, sa, T.world))
+    if not cl_loops and res_t is not None and res_t[0] == "ret" and "Iterator::next" in str(res_t[1]):
+        # the closure hands back what `next()` returned: blocks of the parent where that is known to be Some are not on a
+        # None path
+        infeasible = {x for x in range(len(P.blocks)) if not P.blocks[x]["cleanup"] and any(
+            f[0] == "is_some" and f[2] is True and unref(f[1]) == res_t for f in block_facts(ev, pctx, x))}
+    elif cl_loops:
+        fills = fills_with_callees(env, T, P, pctx)
+        cnts = counters_with_callees(env, T, P, pctx)
+        infeasible = set()
+        for x in range(len(P.blocks)):
+            if P.blocks[x]["cleanup"]:
+                continue
+            for f in block_facts(ev, pctx, x):
+                if _fill_evidence(fills, f, neg=True):
+                    infeasible.add(x)
+                if f[0] == "le" and len(f) == 3 and any(unref(f[1]) == n_ and unref(f[2]) == c_ for (c_, n_, _L) in cnts):
+                    infeasible.add(x)
+    else:
+        return (False, "%s cannot tell whether the closure saw the end (its result is neither the result of next() nor a "
+                       "count of the elements it pulled)" % env.fname(P))
+    if tgt in done_blocks or not P.paths_avoiding(tgt, set(P.exits()), done_blocks | infeasible):
+        return (True, "%s, which sets the end flag on every path that follows a None" % env.fname(P))
+    return (False, "%s can return without setting the end flag: the exhausted iterator is polled again by the next pull"
+            % env.fname(P))
 
 
 def rule_done(env, shared):
@@ -970,8 +1041,21 @@ def rule_done(env, shared):
                 role, adt = T.role_of(e.info["place"])
                 if role == "done":
                     done_blocks.add(e.info["top_bb"])
+        handed = _closure_handed_to_helper(env, T, b, sa) if b.is_closure else None
         for e in evs:
             if e.info["chain"] or not T.is_inner_next(e):
+                continue
+            if handed is not None:
+                # a closure that its parent hands to a private helper (`self.with_iter(|it| ..)`): what the closure learns
+                # about the end of the wrapped iterator is acted on by the parent, which is judged in the parent's terms
+                k = "DONE-SET|%s" % env.fname(b)
+                if k in seen:
+                    continue
+                seen.add(k)
+                okp, whyp = handed
+                out.append(Ob("DONE-SET", k, "ok" if okp else "viol", e.loc(),
+                              "the closure's result goes back to %s" % whyp if okp else
+                              "after the wrapped iterator returned None inside this closure, %s" % whyp, True))
                 continue
             # successor blocks under "result is None"
             tgt = b.term(e.bb).get("target")
@@ -1006,6 +1090,15 @@ def rule_done(env, shared):
                                             return True
                             return False
                         has_len_guard = has_len_guard or len_guard_in(pb)
+                        # (the chain may be built inside a closure that is itself handed to a helper: the collected length
+                        #  is then judged by the function that created that closure)
+                        up, hops_ = pb, 0
+                        while not has_len_guard and up is not None and up.is_closure and hops_ < 3:
+                            up = F.bodies.get(up.parent)
+                            hops_ += 1
+                            if up is not None and len_guard_in(up):
+                                has_len_guard = True
+                                pb = up
                         if not has_len_guard and not pb.is_closure and not (pb.info or {}).get("exported"):
                             # the parent only builds the lazy chain and returns it: whoever collects it sets the flag
                             from r_ticket import all_callers
